@@ -443,13 +443,14 @@ Definition dec_authorized (cf : conf) (is_member : N -> N -> bool) (m : msg) : b
       || is_member (m_client_uid m) (m_auth_gid m)).
 
 Inductive tverdict := TOk | TRewound | TExpired.
-(* dec_validate_time: uint32 arithmetic as in the C code; returns the capped ttl too *)
+(* dec_validate_time: tmin and tmax are formed in time_t (64-bit) from the 32-bit fields, so nothing
+   wraps; returns the capped ttl too *)
 Definition dec_time (cf : conf) (time0 ttl time1 : N) : tverdict * N :=
   let ttl' := if cf_max_ttl cf <? ttl then cf_max_ttl cf else ttl in
   let skew := if cf_clock_skew cf then ttl' else 1 in
-  let tmin := u32 (time0 + 4294967296 - skew) in
-  let tmax := u32 (time0 + ttl') in
-  (if time1 <? tmin then TRewound else if tmax <? time1 then TExpired else TOk, ttl').
+  let tmin := (Z.of_N time0 - Z.of_N skew)%Z in
+  let tmax := time0 + ttl' in
+  (if (Z.of_N time1 <? tmin)%Z then TRewound else if tmax <? time1 then TExpired else TOk, ttl').
 
 (* replay cache, abstractly: the set of (first 16 MAC bytes, expiry) keys *)
 Definition rkey := (bytes * N)%type.
@@ -457,7 +458,8 @@ Definition rkey_eqb (a b : rkey) : bool := bytes_eqb (fst a) (fst b) && (snd a =
 Definition rstate := list rkey.
 Definition r_mem (k : rkey) (s : rstate) : bool := existsb (rkey_eqb k) s.
 Definition r_remove (k : rkey) (s : rstate) : rstate := filter (fun x => negb (rkey_eqb k x)) s.
-Definition cred_rkey (tag : bytes) (m : msg) : rkey := (firstn 16 tag, u32 (m_time0 m + m_ttl m)).
+(* replay.c: t_expired = (time_t) time0 + ttl *)
+Definition cred_rkey (tag : bytes) (m : msg) : rkey := (firstn 16 tag, m_time0 m + m_ttl m).
 
 Definition unauth_str (m : msg) : bytes :=
   str "Unauthorized credential for client UID=" ++ dec_of_N (m_client_uid m) ++ str " GID=" ++ dec_of_N (m_client_gid m).
@@ -488,11 +490,15 @@ Definition dec_parse (cf : conf) (m : msg) : msg + (msg * bytes) :=   (* ok: msg
 
 Definition soft_err (e : N) : bool := (e =? e_cred_expired) || (e =? e_cred_rewound) || (e =? e_cred_replayed).
 
+(* the sanitising step at the end of dec_process_msg *)
+Definition dec_finish (m : msg) : msg :=
+  if negb (m_err m =? e_success) && negb (soft_err (m_err m)) then msg_reset m else m.
+
 (* dec_process_msg up to the reply; returns the reply message, the new replay state and the key
    inserted by this request (for the roll-back when the reply cannot be sent) *)
 Definition dec_process (cf : conf) (is_member : N -> N -> bool) (rs : rstate)
            (m : msg) (peer_uid peer_gid now : N) : msg * rstate * option rkey :=
-  let finish (m : msg) := if negb (m_err m =? e_success) && negb (soft_err (m_err m)) then msg_reset m else m in
+  let finish := dec_finish in
   if (m_data_len m =? 0)
   then (finish (set_err m e_snafu (Some (str "No credential specified in decode request"))), rs, None) else
   let m := m <| m_time0 := 0 |> <| m_time1 := u32 now |>
